@@ -254,8 +254,31 @@ ITEMS = [
                  (r'Box::new\(unknowns_mapper\)', 'vx_box_mapper(unknowns_mapper, Ghost(*mapping))', 1)],
        ensures=[('reauth', """r matches Ok(pr) ==> (spec_concretize_request(*self, *mapping) matches Ok(q) && exists|ps: PolicySet| #[trigger] resid_set(*self, ps)
             && rows_ok(pr, ps.policy_seq(), &spec_with_mapper(spec_evaluator(q, es, auth.extensions), mapper_of(*mapping))))""", ['C13'])]),
+    # ---- the remaining public bucket views (C13 response level) ----
+    Fn(PR, 'impl PartialResponse > fn nontrivial_permits', wrap='impl PartialResponse',
+       sig_rewrites=[ITER_RET], rewrites=[pol_closure('Permit', r'\(id, \(expr, annotations\)\)', T3, '(id, (expr, annotations))')],
+       ensures=[('yields', yields('residual_permits', 'Permit'))],
+       proof_tail='proof { lemma_yields_from_order(__vx_r.items(), self.residual_permits.key_order(), self.residual_permits@.dom(), Effect::Permit); }'),
+    Fn(PR, 'impl PartialResponse > fn nontrivial_forbids', wrap='impl PartialResponse',
+       sig_rewrites=[ITER_RET], rewrites=[pol_closure('Forbid', r'\(id, \(expr, annotations\)\)', T3, '(id, (expr, annotations))')],
+       ensures=[('yields', yields('residual_forbids', 'Forbid'))],
+       proof_tail='proof { lemma_yields_from_order(__vx_r.items(), self.residual_forbids.key_order(), self.residual_forbids@.dom(), Effect::Forbid); }'),
+    Fn(PR, 'impl PartialResponse > fn nontrivial_residuals', wrap='impl PartialResponse',
+       sig_rewrites=[(r"&'_ self", '&self', 1), ITER_RET],
+       ensures=[('exact', 'forall|k: PolicyID| #[trigger] id_in(r.items(), k) <==> (self.residual_permits@.dom().contains(k) || self.residual_forbids@.dom().contains(k))', ['C13'])],
+       proof_start='broadcast use lemma_id_in_concat;'),
+    Fn(PR, 'impl PartialResponse > fn definitely_satisfied', wrap='impl PartialResponse',
+       sig_rewrites=[ITER_RET],
+       ensures=[('exact', 'forall|k: PolicyID| #[trigger] id_in(r.items(), k) <==> (self.satisfied_permits@.dom().contains(k) || self.satisfied_forbids@.dom().contains(k))', ['C13'])],
+       proof_start='broadcast use lemma_id_in_concat;'),
 ]
 CANARIES = ['is_authorized_core_internal', 'from']
 # mechanisms of C13 at the response level that no unit covers: a change to them cannot be decided by this check
 UNCOVERED = [('cedar-policy-core/src/authorizer/partial_response.rs', 'impl PartialResponse > fn concretize_request'),
-             ('cedar-policy-core/src/authorizer/partial_response.rs', 'impl EntityUIDEntry > fn concretize')]
+             ('cedar-policy-core/src/authorizer/partial_response.rs', 'impl EntityUIDEntry > fn concretize'),
+             ('cedar-policy-core/src/authorizer/partial_response.rs', 'impl PartialResponse > fn all_residuals'),
+             ('cedar-policy-core/src/authorizer/partial_response.rs', 'impl PartialResponse > fn get'),
+             ('cedar-policy-core/src/authorizer/partial_response.rs', 'impl PartialResponse > fn get_permit'),
+             ('cedar-policy-core/src/authorizer/partial_response.rs', 'impl PartialResponse > fn get_forbid'),
+             ('cedar-policy-core/src/authorizer/partial_response.rs', 'impl PartialResponse > fn definitely_errored'),
+             ('cedar-policy-core/src/authorizer/partial_response.rs', 'impl PartialResponse > fn nontrivial_residual_ids')]
